@@ -85,35 +85,39 @@ def check_cfg(ctx, fx, cfg):
                 if arg is not None:
                     ok = all((r.kind == "upvar" and r.site == a_idx[0]) or r.kind == "await" for r in roots(b, arg))
                     ctx.require(ok, "R17.1", "%s-loop-stopped-on-same-actor@%s" % (kind, cfg), "stopped() acts on a different value than the one returned", fn=f["def"], site=t["l"])
-    # R17.2
+    check_join(ctx, fx, cfg, "R17.2")
+    check_forwarding(ctx, fx, cfg)
+
+
+def check_join(ctx, fx, cfg, RULE):
     spawners = [f for f in fx.impl_fns("actor::spawner::Spawner") if f["def"].endswith("::spawn_actor")]
-    ctx.floor("R17.2", "Spawner::spawn_actor impls (%s)" % cfg, len(spawners), 1)
+    ctx.floor(RULE, "Spawner::spawn_actor impls (%s)" % cfg, len(spawners), 1)
     for f in spawners:
         sname = (f.get("impl_self") or "?").split("::")[-1]
         inst = "%s@%s" % (sname, cfg)
         b = ctx.body(fx, f)
         # the runtime handle of the spawned loop future is stored in the shared Option slot
         sp = [(bi, t) for bi, t in b.normal_calls() if t.get("callee") in runtimes.SPAWN_FNS]
-        if not ctx.require(len(sp) == 1, "R17.2", inst + ":spawns-once", "spawn_actor must hand its future to the runtime exactly once", fn=f["def"], site=f["loc"]):
+        if not ctx.require(len(sp) == 1, RULE, inst + ":spawns-once", "spawn_actor must hand its future to the runtime exactly once", fn=f["def"], site=f["loc"]):
             continue
         ok = all(r.kind == "arg" for r in roots(b, sp[0][1]["args"][0]))
-        ctx.require(ok, "R17.2", inst + ":spawns-the-loop", "what is spawned is not the loop future given to spawn_actor", fn=f["def"], site=sp[0][1]["l"])
+        ctx.require(ok, RULE, inst + ":spawns-the-loop", "what is spawned is not the loop future given to spawn_actor", fn=f["def"], site=sp[0][1]["l"])
         crate, sem = runtimes.handle_kind(sp[0][1]["destty"])
-        ctx.require(crate is not None, "R17.2", inst + ":known-handle", "unknown runtime task handle type %s: its join/drop semantics must be confirmed" % sp[0][1]["destty"][:60], fn=f["def"], site=sp[0][1]["l"], detail={"handle": sp[0][1]["destty"][:80], "drop": sem})
+        ctx.require(crate is not None, RULE, inst + ":known-handle", "unknown runtime task handle type %s: its join/drop semantics must be confirmed" % sp[0][1]["destty"][:60], fn=f["def"], site=sp[0][1]["l"], detail={"handle": sp[0][1]["destty"][:80], "drop": sem})
         # the join closure: passed to ActorHandle::new
         newc = [t for _, t in b.normal_calls() if t.get("callee") == "actor::spawner::actor_handle::ActorHandle::<A>::new"]
-        if not ctx.require(len(newc) == 1, "R17.2", inst + ":handle-built", "ActorHandle::new not called", fn=f["def"], site=f["loc"]):
+        if not ctx.require(len(newc) == 1, RULE, inst + ":handle-built", "ActorHandle::new not called", fn=f["def"], site=f["loc"]):
             continue
         jdef = None
         for o in b.origins(newc[0]["args"][0]):
             if o.kind == "agg":
                 jdef = b.blocks[o.site[0]]["s"][o.site[1]]["r"].get("def")
         jc = fx.fn(jdef) if jdef else None
-        if not ctx.require(jc is not None, "R17.2", inst + ":join-closure", "join closure not found", fn=f["def"], site=f["loc"]):
+        if not ctx.require(jc is not None, RULE, inst + ":join-closure", "join closure not found", fn=f["def"], site=f["loc"]):
             continue
         jb = ctx.body(fx, jc)
         cos = [fx.fn(st["r"]["def"]) for _bi, _si, st in agg_sites(jb, ak="coroutine")]
-        if not ctx.require(len(cos) == 1, "R17.2", inst + ":join-future", "the join closure must build exactly one future", fn=jc["def"], site=jc["loc"]):
+        if not ctx.require(len(cos) == 1, RULE, inst + ":join-future", "the join closure must build exactly one future", fn=jc["def"], site=jc["loc"]):
             continue
         co = cos[0]
         cb = ctx.body(fx, co)
@@ -126,16 +130,16 @@ def check_cfg(ctx, fx, cfg):
         viols, ps = nfa.check(n, JoinSpec())
         ctx.count_nfa(n.stats(), ps)
         for v in viols:
-            ctx.viol("R17.2", inst + ":join-protocol", v["msg"], fn=co["def"], site=co["loc"], trace=v["trace"])
+            ctx.viol(RULE, inst + ":join-protocol", v["msg"], fn=co["def"], site=co["loc"], trace=v["trace"])
         if not viols:
-            ctx.ok("R17.2", inst + ":join-protocol", co["loc"], {"words": [" ".join(w) for w in nfa.words(n, limit=3)]})
+            ctx.ok(RULE, inst + ":join-protocol", co["loc"], {"words": [" ".join(w) for w in nfa.words(n, limit=3)]})
         # no cloning of the runtime handle, no panicking extractor
         bad = [(t["callee"], t["l"]) for _, t in cb.normal_calls() if (t.get("callee") or "").endswith(PANICKY) and not t.get("exp")]
-        ctx.require(not bad, "R17.2", inst + ":no-panic", "panicking extractor on the join path: %s" % bad, fn=co["def"], site=co["loc"])
+        ctx.require(not bad, RULE, inst + ":no-panic", "panicking extractor on the join path: %s" % bad, fn=co["def"], site=co["loc"])
         # the slot locked is the captured one which holds the spawned handle
         locks = [t for _, t in cb.normal_calls() if (t.get("callee") or "").startswith("async_lock::mutex::") and (t.get("callee") or "").endswith("::lock")]
         ok = len(locks) == 1 and all(r.kind == "upvar" for r in roots(cb, locks[0]["args"][0]))
-        ctx.require(ok, "R17.2", inst + ":locks-own-slot", "the join locks something else than the slot holding its task handle", fn=co["def"], site=co["loc"])
+        ctx.require(ok, RULE, inst + ":locks-own-slot", "the join locks something else than the slot holding its task handle", fn=co["def"], site=co["loc"])
         # the result handed back derives from the awaited handle (the actor value), flattened with ok()/and_then()
         rv = set()
         for bi, blk in enumerate(cb.blocks):
@@ -158,7 +162,10 @@ def check_cfg(ctx, fx, cfg):
                                 rv.add(r2.kind)
                         else:
                             rv.add(r.kind)
-        ctx.require("await" in rv, "R17.2", inst + ":returns-joined-value", "the value a join yields must be what the awaited task returned: derives from %s" % sorted(rv), fn=co["def"], site=co["loc"], detail=sorted(rv))
+        ctx.require("await" in rv, RULE, inst + ":returns-joined-value", "the value a join yields must be what the awaited task returned: derives from %s" % sorted(rv), fn=co["def"], site=co["loc"], detail=sorted(rv))
+
+
+def check_forwarding(ctx, fx, cfg):
     # R17.3
     def one_call(fn_name, callee, inst, recv_field=None):
         f = fx.fn(fn_name)
